@@ -349,18 +349,18 @@ func drawFloatCase(t *rapid.T) litCase {
 			k int
 		}
 		x := rapid.SampledFrom([]th{
-			{1<<25 - 1, 103},   // MaxFloat32 + half ulp = 2^128 - 2^103
-			{1<<24 - 1, 104},   // MaxFloat32
-			{1, 128},           // 2^128
-			{1, -150},          // half the smallest float32 subnormal
-			{1, -149},          // smallest float32 subnormal
-			{3, -150},          // 1.5 subnormal steps
-			{1<<24 - 1, -150},  // between largest subnormal and smallest normal float32 (midpoint)
-			{1<<54 - 1, 970},   // MaxFloat64 + half ulp
-			{1<<53 - 1, 971},   // MaxFloat64
-			{1, 1024},          // 2^1024
-			{1, -1075},         // half the smallest float64 subnormal
-			{1, -1074},         // smallest float64 subnormal
+			{1<<25 - 1, 103},  // MaxFloat32 + half ulp = 2^128 - 2^103
+			{1<<24 - 1, 104},  // MaxFloat32
+			{1, 128},          // 2^128
+			{1, -150},         // half the smallest float32 subnormal
+			{1, -149},         // smallest float32 subnormal
+			{3, -150},         // 1.5 subnormal steps
+			{1<<24 - 1, -150}, // between largest subnormal and smallest normal float32 (midpoint)
+			{1<<54 - 1, 970},  // MaxFloat64 + half ulp
+			{1<<53 - 1, 971},  // MaxFloat64
+			{1, 1024},         // 2^1024
+			{1, -1075},        // half the smallest float64 subnormal
+			{1, -1074},        // smallest float64 subnormal
 			{3, -1075},
 			{1<<53 - 1, -1075},
 		}).Draw(t, "threshold")
